@@ -1064,6 +1064,12 @@ pub struct ServerPool {'''),
                         Some(ref old_pool) => old_pool.paused_waiter.clone(),
                         None => Arc::new(Notify::new()),
                     },""", new="""                    paused_waiter: Arc::new(Notify::new()),"""),
+    dict(id="c14-message-used-before-refresh", prop="C14", file="src/client.rs", expect="C14-R4",
+         what="the pool is re-resolved only before the checkout again (D61 again)",
+         old="""            pool = self.get_pool().await?;
+            query_router.update_pool_settings(&pool.settings);
+
+            // Handle all custom protocol commands, if any.""", new="""            // Handle all custom protocol commands, if any."""),
     # ------------------------------------------------------------------ C17
     dict(id="c17-shutdown-checked-in-transaction", prop="C17", file="src/client.rs", expect="C17-R1",
          what="the transaction loop also reacts to the shutdown broadcast",
